@@ -7,6 +7,7 @@ import (
 	"path/filepath"
 	"sort"
 	"strings"
+	"sync/atomic"
 	"time"
 
 	"github.com/grailbio/base/compress/zstd"
@@ -44,7 +45,8 @@ func c13program(c c13case, dir string) (Spec, int) {
 		chunks = []int{40, -1 << 20}
 	}
 	src := PNode{Op: "readerfunc", Shards: c.Shards, Rows: c.Rows, Out: []string{"int", "string"}, Salt: c.Seed, Mod: 30, Chunks: chunks}
-	mp := PNode{Op: "map", In: []int{0}, Out: []string{"int", "int64"}, Src: []int{0, -1}, Salt: c.Seed + 1, Mod: 7}
+	// the map counts its rows in a user metric (read back from the result's scope after the second run)
+	mp := PNode{Op: "map", In: []int{0}, Out: []string{"int", "int64"}, Src: []int{0, -1}, Salt: c.Seed + 1, Mod: 7, Ctx: true}
 	cache := PNode{Op: c.Kind, Path: "vfault://" + dir + "/c"}
 	nodes := []PNode{src}
 	ci := 0
@@ -302,6 +304,26 @@ func runC13case(t *vf.T, c c13case) {
 	if d := compareResult(out2.Rows, want); d != "" {
 		t.Violate(sig+" rows-differ-with-cache", fmt.Sprintf("second run (present=%b): %s", c.Present, d))
 		return
+	}
+	// user metrics of a partly cached run: the result's scope reports exactly the increments the
+	// user functions performed in this run (tasks that were skipped performed none), whichever
+	// shards were cached
+	if out2.Res != nil && len(ls.lostMachines()) == 0 {
+		pr := probeFor(r2.Run)
+		var did [nCounters]int64
+		pr.mu.Lock()
+		for k, v := range pr.incrs {
+			did[k] = atomic.LoadInt64(v)
+		}
+		pr.mu.Unlock()
+		if got := counterValues(out2.Res); got != did {
+			t.Violate(sig+" counters-differ-with-cache", fmt.Sprintf("second run (present=%b): the result's scope reports %v, the user functions performed %v increments in this run", c.Present, got, did))
+			return
+		}
+		t.Count("scopes_of_partly_cached_runs_checked", 1)
+		if did != ([nCounters]int64{}) {
+			t.Count("scopes_of_partly_cached_runs_with_increments", 1)
+		}
 	}
 	// recomputation: the source knows its shard. Only meaningful when the cache sits in the
 	// source's pipeline (shards correspond).
